@@ -44,7 +44,13 @@ CLAIM = dict(
     "DarsiaModel.Persist: the returned image, of the class the kind rule yields, carries the probe's physical metadata key by "
     "key, scalar = True when reduced, all keys of the probe's class otherwise; parametric in the key table whose shape C18 "
     "discharges), result_kind_cases; tied: per metadata key same / True / other, model on symbolic values vs real result. The "
-    "correspondence runs on float64 and float32 (dyadic) images. OBSERVED ONLY (oracle): TVD / compare_images / cv2 internals, 0-preservation of TVD, update(mask=...) (unused by this class).",
+    "correspondence runs on float64 and float32 (dyadic) images. The order theorems on the model's stageList "
+    "(stage_order, result_eq_composition, cleaning_iff) are definitional case splits; what links the ORDER to the code is "
+    "source_call_order (the sequence of private stage calls of __call__ and their chaining, extracted from the AST on every "
+    "check, equals the documented order) with stage_order_general / stage_order_from_source, the instrumented tie and the "
+    "oracle. result_meta's conclusions hold for both result classes whatever the kind (its antecedents only select the "
+    "relevant half). Integer promotion is proved for UNSIGNED types only (uint8 / uint16 are what is exercised); signed / "
+    "int64 / bool images and baseline lists of mixed dtype are not covered. OBSERVED ONLY (oracle): TVD / compare_images / cv2 internals, 0-preservation of TVD, update(mask=...) (unused by this class).",
     note="stage objects are parameters of the model; library numerics are observed only",
     technique="Lean 4 proof (list induction, state-machine and buffer invariants, case analysis over configurations, ordered-field "
     "arithmetic) + differential correspondence with instrumented stages + exact-rational numeric ties + property oracle",
@@ -168,6 +174,63 @@ def build(d, cfg, base, log, scribble=False, real=None):
     return call(lambda: d.ConcentrationAnalysis(
         base, signal_reduction=stages["reduction"], balancing=stages["balancing"], restoration=stages["restoration"],
         model=stages["model"], **{"diff option": cfg["opt"], "restoration -> model": cfg["first"]}))
+
+
+STAGE_METHODS = {"_reduce_signal": "reduction", "_clean_signal": "cleaning", "_balance_signal": "balancing",
+                 "_restore_signal": "restoration", "_convert_signal": "model"}
+
+
+def extract_call_order(d):
+    """G2: the order in which ConcentrationAnalysis.__call__ invokes its private stage methods, for both values of
+    `first_restoration_then_model`, and whether each call is handed the variable the previous call assigned (chaining)"""
+    import ast
+    import inspect
+    import textwrap
+
+    f = ast.parse(textwrap.dedent(inspect.getsource(d.ConcentrationAnalysis.__call__))).body[0]
+
+    def walk(stmts, first, out):
+        for st in stmts:
+            if isinstance(st, ast.If):
+                test = ast.unparse(st.test)
+                if "first_restoration_then_model" in test:
+                    neg = test.strip().startswith("not ")
+                    walk(st.body if (first != neg) else st.orelse, first, out)
+                else:
+                    # other conditionals (dtype promotion, plotting) contain no stage calls; scan both to be sure
+                    walk(st.body, first, out)
+                    walk(st.orelse, first, out)
+                continue
+            for n in ast.walk(st):
+                if isinstance(n, ast.Call) and isinstance(n.func, ast.Attribute) and isinstance(n.func.value, ast.Name) \
+                        and n.func.value.id == "self" and (n.func.attr in STAGE_METHODS or n.func.attr == "_subtract_background"):
+                    tgt = st.targets[0].id if isinstance(st, ast.Assign) and isinstance(st.targets[0], ast.Name) else None
+                    arg = n.args[0].id if n.args and isinstance(n.args[0], ast.Name) else None
+                    out.append((n.func.attr, tgt, arg))
+
+    table = {}
+    for first in (True, False):
+        calls = []
+        walk(f.body, first, calls)
+        names = [STAGE_METHODS[m] for m, _, _ in calls if m in STAGE_METHODS]
+        chained = bool(calls) and calls[0][0] == "_subtract_background" and all(
+            calls[k][2] is not None and calls[k][2] == calls[k - 1][1] for k in range(1, len(calls)))
+        ret = [n for n in ast.walk(f) if isinstance(n, ast.Return)]
+        table[first] = dict(order=names, chained=chained, last_target=calls[-1][1] if calls else None)
+    return table
+
+
+def emit_call_order(t):
+    L = ["import DarsiaModel.Pipeline", "namespace Darsia.Gen", "open Darsia Darsia.Pipeline", "",
+         "/-- order of the private stage calls in `ConcentrationAnalysis.__call__` (AST) -/", "def callOrder : Bool → List StageName"]
+    for first in (True, False):
+        L.append(f"  | {'true' if first else 'false'} => [" + ", ".join("." + n for n in t[first]["order"]) + "]")
+    L += ["", "/-- each stage call receives the variable assigned by the previous call, the first one the difference -/",
+          "def callsChained : Bool → Bool"]
+    for first in (True, False):
+        L.append(f"  | {'true' if first else 'false'} => {'true' if t[first]['chained'] else 'false'}")
+    L += ["", "end Darsia.Gen"]
+    return "\n".join(L) + "\n"
 
 
 def correspondence(ctx, d):
@@ -371,8 +434,13 @@ def oracle(ctx, d):
         thr = None
         if n_extra:
             # threshold as the constructor computed it: max over the reduced differences of the extra baselines
-            red_outs = [a for n, a in ctor_log if n == "out:reduction"]
-            sig = red_outs if cfg["reduction"] is not None else [ref_diff(cfg["opt"], to_float(e), b64) for e in extras]
+            # reference reduction of the extra baselines' differences, computed here (not taken from the implementation)
+            def ref_reduce(spec, a):
+                if spec is None:
+                    return a
+                return a[..., spec[1]] if spec[0] == "chan" else a[..., spec[1]] + a[..., spec[2]]
+
+            sig = [ref_reduce(cfg["reduction"], ref_diff(cfg["opt"], to_float(e), b64)) for e in extras]
             thr = np.zeros_like(np.asarray(sig[0], dtype=float))
             for s in sig:
                 thr = np.maximum(thr, s)
@@ -663,10 +731,51 @@ def promotion_tie(ctx, d):
 
 
 def replay(data):
-    print("property C13 replay")
-    for k in ("signature", "what"):
-        print(f"  {k}: {data.get(k)}")
-    print("  input:", data.get("replay"))
+    """re-execute the stored case on the implementation: the failing case is regenerated deterministically from the stored
+    seed and tier (the whole generation stream of that tier is replayed, Lean proofs are skipped), the oracle is evaluated
+    again and the observed outcome is printed next to the stored one. Exit code 1 = reproduced, 0 = not reproduced."""
+    import shutil
+
+    from ..lib import core
+
+    sig = data.get("signature")
+    rep = data.get("replay") or {}
+    print(f"property C13 replay")
+    print(f"  stored signature: {sig}")
+    print(f"  stored finding  : {data.get('what')}")
+    if "verif_seed" not in rep:
+        print("  no failing input stored (proof / tie / correspondence break):", [m.get("kind") for m in data.get("no_longer_checks", data.get("marks", []))])
+        return 0
+    print(f"  stored input    : { {k: v for k, v in rep.items() if k not in ('before', 'after')} }")
+
+    class RCtx(core.Ctx):
+        def prove(self, *a, **k):  # the Lean side is not part of a replay
+            pass
+
+        def write_gen(self, *a, **k):
+            return False
+
+        def log(self, *a):
+            pass
+
+    ctx = RCtx("C13", rep.get("tier", "quick"), int(rep["verif_seed"]), LEVEL)
+    try:
+        run(ctx)
+    finally:
+        shutil.rmtree(ctx._tmp, ignore_errors=True)
+    hits = [f for f in ctx.failures if f["signature"] == sig] + [h for h in ctx.known_hits if h["signature"] == sig]
+    if hits:
+        h = hits[0]
+        print("  REPRODUCED on the current implementation:")
+        print(f"    observed: {h.get('what')}")
+        if "replay" in h:
+            print(f"    input   : { {k: v for k, v in h['replay'].items() if k not in ('before', 'after')} }")
+            for k in ("before", "after", "observed", "required"):
+                if k in h["replay"]:
+                    print(f"    {k:8}: {str(h['replay'][k])[:300]}")
+        return 1
+    others = sorted({f["signature"] for f in ctx.failures})
+    print("  not reproduced on the current implementation (the required behaviour holds for the regenerated case)" + (f"; other failures now: {others[:5]}" if others else ""))
     return 0
 
 
@@ -676,6 +785,12 @@ def run(ctx):
     _fail = ctx.fail
     ctx.fail = lambda sig, what, rep: _fail(sig, what, dict(rep, verif_seed=ctx.seed, tier=ctx.tier))  # replays are reproducible
 
+    co = call(lambda: extract_call_order(d))
+    if isinstance(co, Raised):
+        ctx.mark("TIE-BROKEN", {"G2": "call order of ConcentrationAnalysis.__call__ not extractable", "error": repr(co.exc)})
+        co = {True: dict(order=[], chained=False), False: dict(order=[], chained=False)}
+    ctx.write_gen("CallOrder", emit_call_order(co))
+    ctx.cov["generated_tables"] = {"callOrder": {str(k): v for k, v in co.items()}}
     ctx.prove("C13")
     correspondence(ctx, d)
     promotion_tie(ctx, d)
